@@ -300,6 +300,8 @@ def check_vmlog(chk, m, info):
         # every argument slot receives a value fetched from the caller's argument list (whatever the format string says:
         # "%*d" consumes two arguments for one conversion), never a constant
         consts = [(k, e, la) for k, e, la in ls if la[1] != 0 and strip_casts(e.val)[0] in ("c", "null")]
+        if not consts:
+            chk.ob("L2.args-from-caller", pid, True, "no argument slot is filled with a constant on this path", ev[hs[0]].inst.loc, fn.name)
         if consts:
             chk.ob("L2.args-from-caller", pid, False,
                    "argument slot at element offset %d is filled with the constant %s on this path instead of the caller's next "
